@@ -274,7 +274,10 @@ class SimConn(object):
         now = self.clock.seconds()
         self.net.log.append(("client_close", now, self.id, abort))
         reason = ConnectionLost("aborted") if abort else ConnectionDone()
-        self.clock.labelled(0, "net.client_conn_lost", self._client_conn_lost, reason)
+        # a TCP transport stops reading at loseConnection() and reports the loss on the next turn; a TLS-like one
+        # (net.linger_reads = seconds) keeps delivering what the peer sends until the closing handshake is through
+        linger = 0 if abort else (self.net.linger_reads or 0)
+        self.clock.labelled(linger, "net.client_conn_lost", self._client_conn_lost, reason)
 
     def _server_eof(self):
         if self.server_gone:
@@ -339,7 +342,7 @@ class SimConn(object):
             self._deliver_s2c(data)
 
     def _deliver_s2c(self, data):
-        if self.client_closing or self.client_lost:
+        if self.client_lost or (self.client_closing and (self.client_aborted or not self.net.linger_reads)):
             return
         now = self.clock.seconds()
         self.s2c.append((now, data))
@@ -427,6 +430,7 @@ class SimNet(object):
         self.log = []
         self.write_hooks = []
         self.connect_hooks = []
+        self.linger_reads = None
         self.cancel_with_connecting_cancelled = True
         self.connect_policy = None  # fn(host, port, n_attempt) -> ("accept"|"refuse"|"blackhole", latency or None)
         self.owner = None  # tag put on attempts/connections made now
